@@ -32,14 +32,18 @@ type mmember struct {
 	awaitingJoin *heldResp
 	awaitingSync *heldResp
 	assignment   []byte
+	receivedGen  int32 // generation whose assignment was last served to this member through SyncGroup
+	syncConn     *simConn
+	syncCorr     int32
 	timerGen     int // bumped on every heartbeat-equivalent; session timers carry the value
 	joinedGen    int32
 }
 
 type heldResp struct {
-	c    *simConn
-	corr int32
-	ver  int16
+	c      *simConn
+	corr   int32
+	ver    int16
+	client string
 }
 
 type mgroup struct {
@@ -65,6 +69,7 @@ type genRecord struct {
 	synced      bool
 	partCounts  map[string]int // partitions per topic in the cluster view when the plan arrived
 	atUs        int64
+	receivedPrev map[string]int32 // member -> generation of the last assignment it had received when it joined this one
 }
 
 func (g *groupModel) group(id string) *mgroup {
@@ -156,7 +161,7 @@ func (g *groupModel) serveGroup(br *mbroker, c *simConn, h reqHeader, body inter
 			return enc(&sarama.JoinGroupResponse{Version: r.Version, Err: e, MemberId: r.MemberId})
 		}
 		mg := g.group(r.GroupId)
-		held := &heldResp{c: c, corr: h.corr, ver: r.Version}
+		held := &heldResp{c: c, corr: h.corr, ver: r.Version, client: h.client}
 		return g.join(mg, r, held, enc)
 	case *sarama.SyncGroupRequest:
 		if e := gate(); e != sarama.ErrNoError {
@@ -167,9 +172,15 @@ func (g *groupModel) serveGroup(br *mbroker, c *simConn, h reqHeader, body inter
 		m := mg.members[r.MemberId]
 		switch {
 		case m == nil:
+			if g.onFenced != nil {
+				g.onFenced(h.client, c, h.corr)
+			}
 			cl.k.logf("b%d SyncGroup member=%q -> UNKNOWN_MEMBER_ID", br.id, r.MemberId)
 			return enc(&sarama.SyncGroupResponse{Err: sarama.ErrUnknownMemberId})
 		case r.GenerationId != mg.generation:
+			if g.onFenced != nil {
+				g.onFenced(h.client, c, h.corr)
+			}
 			cl.k.logf("b%d SyncGroup member=%q gen=%d -> ILLEGAL_GENERATION (%d)", br.id, r.MemberId, r.GenerationId, mg.generation)
 			return enc(&sarama.SyncGroupResponse{Err: sarama.ErrIllegalGeneration})
 		}
@@ -181,6 +192,7 @@ func (g *groupModel) serveGroup(br *mbroker, c *simConn, h reqHeader, body inter
 			return enc(&sarama.SyncGroupResponse{Err: sarama.ErrRebalanceInProgress})
 		case gStable:
 			g.touch(mg, m)
+			m.receivedGen, m.syncConn, m.syncCorr = mg.generation, c, h.corr
 			cl.k.logf("b%d SyncGroup member=%q gen=%d -> stable assignment (%dB)", br.id, r.MemberId, r.GenerationId, len(m.assignment))
 			return enc(&sarama.SyncGroupResponse{MemberAssignment: m.assignment})
 		}
@@ -199,6 +211,7 @@ func (g *groupModel) serveGroup(br *mbroker, c *simConn, h reqHeader, body inter
 					hr := mm.awaitingSync
 					mm.awaitingSync = nil
 					g.touch(mg, mm)
+					mm.receivedGen, mm.syncConn, mm.syncCorr = mg.generation, hr.c, hr.corr
 					if hr.c == c && hr.corr == h.corr {
 						continue // answered inline below
 					}
@@ -252,6 +265,9 @@ func (g *groupModel) join(mg *mgroup, r *sarama.JoinGroupRequest, held *heldResp
 	cl := g.cl
 	m := mg.members[r.MemberId]
 	if r.MemberId != "" && m == nil {
+		if g.onFenced != nil {
+			g.onFenced(held.client, held.c, held.corr)
+		}
 		cl.k.logf("JoinGroup %s member=%q -> UNKNOWN_MEMBER_ID", mg.id, r.MemberId)
 		return enc(&sarama.JoinGroupResponse{Version: r.Version, Err: sarama.ErrUnknownMemberId, MemberId: r.MemberId})
 	}
@@ -264,7 +280,7 @@ func (g *groupModel) join(mg *mgroup, r *sarama.JoinGroupRequest, held *heldResp
 	changed := false
 	if m == nil {
 		g.nMember++
-		m = &mmember{id: fmt.Sprintf("sim-member-%d", g.nMember)}
+		m = &mmember{id: fmt.Sprintf("sim-member-%d", g.nMember), clientID: held.client}
 		mg.members[m.id] = m
 		mg.order = append(mg.order, m.id)
 		changed = true
@@ -319,6 +335,9 @@ func (g *groupModel) join(mg *mgroup, r *sarama.JoinGroupRequest, held *heldResp
 }
 
 func (g *groupModel) joinResponse(mg *mgroup, m *mmember, ver int16) *sarama.JoinGroupResponse {
+	if g.onIssued != nil {
+		g.onIssued(m.clientID, m.id, mg.generation)
+	}
 	res := &sarama.JoinGroupResponse{Version: ver, GenerationId: mg.generation, GroupProtocol: mg.protocol, LeaderId: mg.leader, MemberId: m.id, Members: map[string][]byte{}}
 	if m.id == mg.leader {
 		for id, mm := range mg.members {
@@ -431,10 +450,18 @@ func (g *groupModel) completeJoin(mg *mgroup, timedOut bool) {
 			break
 		}
 	}
-	rec := &genRecord{generation: mg.generation, leader: mg.leader, subs: map[string][]string{}, userData: map[string][]byte{}, atUs: cl.k.nowUs()}
+	rec := &genRecord{generation: mg.generation, leader: mg.leader, subs: map[string][]string{}, userData: map[string][]byte{}, atUs: cl.k.nowUs(), receivedPrev: map[string]int32{}}
 	for _, id := range mg.order {
 		mm := mg.members[id]
 		rec.members = append(rec.members, id)
+		// the assignment counts as received only if the response reached a healthy connection
+		if mm.syncConn != nil {
+			mm.syncConn.mu.Lock()
+			if mm.syncConn.deliveredCorr[mm.syncCorr] && !mm.syncConn.sawError {
+				rec.receivedPrev[id] = mm.receivedGen
+			}
+			mm.syncConn.mu.Unlock()
+		}
 		if md, err := sarama.VerifDecodeMemberMetadata(mm.protocols[mg.protocol]); err == nil {
 			rec.subs[id] = append([]string(nil), md.Topics...)
 			rec.userData[id] = md.UserData
